@@ -19,8 +19,9 @@ VARIABLES tid, l, bad,
           putk,       \* {<<id, kind>>}: events that reached the fabric queue of that kind
           owed,       \* {<<id, ao, kind>>}
           deliv,      \* {<<id, ao, kind>>}: appended to the AO's queue by the delivery thread of that kind
-          ndisp       \* [<<ao, id>>] -> number of dispatches, as a set of <<ao, id, n>>
-vars == <<tid, l, bad, started, subret, subcall, ineffect, pubs, putk, owed, deliv, ndisp>>
+          ndisp,      \* [<<ao, id>>] -> number of dispatches, as a set of <<ao, id, n>>
+          stopcalled  \* active objects whose stop() has been called: nothing is owed to them any more, the OTHERS are owed as before
+vars == <<tid, l, bad, started, subret, subcall, ineffect, pubs, putk, owed, deliv, ndisp, stopcalled>>
 T == All[tid]
 E == T.ev[l]
 Chk(ok, name) == IF ok THEN {} ELSE {name}
@@ -29,7 +30,7 @@ KindOfThread(th) == IF Len(th) >= 8 /\ SubSeq(th, 1, 8) = "fab_fifo" THEN "fifo"
 Count(ao, id) == LET S == {x \in ndisp : x[1] = ao /\ x[2] = id} IN IF S = {} THEN 0 ELSE (CHOOSE x \in S : TRUE)[3]
 
 TInit == /\ tid \in DOMAIN All /\ l = 1 /\ bad = {} /\ started = {} /\ subret = {} /\ subcall = {} /\ ineffect = {}
-         /\ pubs = {} /\ putk = {} /\ owed = {} /\ deliv = {} /\ ndisp = {}
+         /\ pubs = {} /\ putk = {} /\ owed = {} /\ deliv = {} /\ ndisp = {} /\ stopcalled = {}
 
 Same == UNCHANGED <<started, subret, subcall, ineffect, pubs, putk, owed, deliv, ndisp>>
 Step ==
@@ -43,7 +44,7 @@ Step ==
          /\ UNCHANGED <<started, subret, subcall, pubs, putk, owed, deliv, ndisp>>
     [] E[1] = "call" /\ E[2] = "pub" ->
          /\ pubs' = pubs \cup {<<E[5], E[4], E[3]>>}
-         /\ owed' = owed \cup {<<E[5], s[1], s[3]>> : s \in {x \in ineffect : x[2] = E[4]}}
+         /\ owed' = owed \cup {<<E[5], s[1], s[3]>> : s \in {x \in ineffect : x[2] = E[4] /\ x[1] \notin stopcalled}}
          /\ bad' = {} /\ UNCHANGED <<started, subret, subcall, ineffect, putk, deliv, ndisp>>
     [] E[1] = "put" -> putk' = putk \cup {<<E[3], E[2]>>} /\ bad' = {}
          /\ UNCHANGED <<started, subret, subcall, ineffect, pubs, owed, deliv, ndisp>>
@@ -66,17 +67,22 @@ Step ==
     [] OTHER -> bad' = {} /\ Same
 
 Quiet == T.end.outcome = "quiescent" /\ T.end.drivers_done
+(* what is still owed at the end: not to an object that was stopped, and not for a publication whose PUBLISHER was stopped (its *)
+(* publish request may have been waiting in its own queue when it stopped)                                                    *)
+PublisherOf(id) == LET S == {p \in pubs : p[1] = id} IN IF S = {} THEN "" ELSE (CHOOSE p \in S : TRUE)[3]
+OwedLive == {o \in owed : o[2] \notin stopcalled /\ PublisherOf(o[1]) \notin stopcalled}
 Final ==
        Chk(T.end.outcome # "bound", "NoProgress") \cup Chk(T.end.outcome # "error", "Error")
   \cup Chk(T.end.outcome # "quiescent" \/ T.end.drivers_done, "Hang")
-  \cup Chk(~Quiet \/ \A p \in pubs : p[3] \in started => (<<p[1], "fifo">> \in putk /\ <<p[1], "lifo">> \in putk), "PublishLost")
-  \cup Chk(~Quiet \/ owed \subseteq deliv, "Missing")
-  \cup Chk(~Quiet \/ \A d \in deliv : Count(d[2], d[1]) = Cardinality({x \in deliv : x[1] = d[1] /\ x[2] = d[2]}), "DispatchCount")
+  \cup Chk(~Quiet \/ \A p \in pubs : (p[3] \in started /\ p[3] \notin stopcalled) => (<<p[1], "fifo">> \in putk /\ <<p[1], "lifo">> \in putk), "PublishLost")
+  \cup Chk(~Quiet \/ OwedLive \subseteq deliv, "Missing")
+  \cup Chk(~Quiet \/ \A d \in deliv : d[2] \in stopcalled \/ Count(d[2], d[1]) = Cardinality({x \in deliv : x[1] = d[1] /\ x[2] = d[2]}), "DispatchCount")
 
 TNext ==
   /\ bad = {} /\ l <= Len(T.ev) + 1 /\ tid' = tid /\ l' = l + 1
   /\ IF l <= Len(T.ev) THEN Step ELSE bad' = Final /\ Same
-  /\ IF bad' # {} THEN PrintT(ToJson([tid |-> T.tid, at |-> l, bad |-> bad', missing |-> owed \ deliv]))
+  /\ stopcalled' = IF l <= Len(T.ev) /\ E[1] = "call" /\ E[2] = "stop" THEN stopcalled \cup {E[3]} ELSE stopcalled
+  /\ IF bad' # {} THEN PrintT(ToJson([tid |-> T.tid, at |-> l, bad |-> bad', missing |-> OwedLive \ deliv]))
      ELSE IF l = Len(T.ev) + 1 THEN PrintT(ToJson([tid |-> T.tid, done |-> l, owed |-> Cardinality(owed)])) ELSE TRUE
 TSpec == TInit /\ [][TNext]_vars
 =============================================================================
